@@ -367,9 +367,9 @@ func c20DaemonMode(words []string) bool {
 
 func c20BuildExec(tier string) core.Source {
 	drive.Quiet()
-	maxLen := 4
+	maxLen := 5
 	if tier == "thorough" {
-		maxLen = 5
+		maxLen = 6
 	}
 	// "-e" and "--exclude" take the NEXT word as their value, so that e.g. "--daemon" can appear as a value rather than as an option
 	alphabet := []string{"--server", "--daemon", "--sender", "-eMARKER", "--rsh=MARKER", "-e", "--exclude", "-vlogDtpr", ".", "CANARY/dir", "CANARY/newdir", "host:path", "rsync://127.0.0.1:1/m"}
@@ -553,7 +553,7 @@ func init() {
 	core.Register(&core.Prop{
 		ID:    "C20",
 		Level: "model_checking",
-		Rule: "auth: every subset of 4 listable keys (ed25519 x2, ecdsa-p256, rsa-2048) x authorized_keys layouts {plain, comments/blank lines/options prefix, CRLF} (incl. the empty file) x every client key (the 4, an unlisted one, none), plus the anonymous listener, each a real SSH handshake against anonssh.Serve; exec: the real daemon entry point (maincmd.Main --daemon with an authorized-SSH listener, i.e. the real session dispatch) receives every exec command line 'rsync w1..wk', k<=4 (thorough k<=5), over {--server,--daemon,--sender,-e<marker>,--rsh=<marker>,-e <next word>,--exclude <next word>,-vlogDtpr,.,<canary>/dir,<canary>/newdir,host:path,rsync://…}; requests: shell, subsystem, pty-req, env, foreign channel types. " +
+		Rule: "auth: every subset of 4 listable keys (ed25519 x2, ecdsa-p256, rsa-2048) x authorized_keys layouts {plain, comments/blank lines/options prefix, CRLF} (incl. the empty file) x every client key (the 4, an unlisted one, none), plus the anonymous listener, each a real SSH handshake against anonssh.Serve; exec: the real daemon entry point (maincmd.Main --daemon with an authorized-SSH listener, i.e. the real session dispatch) receives every exec command line 'rsync w1..wk', k<=5 (thorough k<=6), over {--server,--daemon,--sender,-e<marker>,--rsh=<marker>,-e <next word>,--exclude <next word>,-vlogDtpr,.,<canary>/dir,<canary>/newdir,host:path,rsync://…}; requests: shell, subsystem, pty-req, env, foreign channel types. " +
 			"oracle: handshake succeeds iff the key is listed (always on the anonymous listener); a session produces the daemon greeting iff the command line selects --server --daemon; every other command line yields no stdout bytes, a non-zero exit status, an untouched canary directory and no execution of the marker script. states/transitions = handshakes / sessions",
 		Assum: []string{"key material is generated per worker and is not an explored dimension", "landlock is neutralised in the worker (it would narrow what a session can reach; the property is about the listener's dispatch)", "the anonymous listener's dispatch closure is textually the same as the authorised one and needs Linux namespaces to start, so the authorised one is driven"},
 		Parts: func(tier string) []core.Part {
